@@ -298,6 +298,8 @@ SPECIAL_TEXTS = {
     # (CSR accesses: "not visualised" - the single-cycle visualisation getter takes its early-return path)
     "csr": "addi x5, x0, 1\ncsrrw x6, 0x001, x5\naddi x7, x5, 2\ncsrrsi x8, 0x001, 3\nadd x9, x8, x6\ncsrrc x10, 0x002, x5\ncsrrwi x11, 0x7, 9\ncsrrci x12, 0x001, 1",
     "csr-first": "csrrs x6, 0x001, x0\nsub x7, x6, x5\ncsrrw x0, 0x001, x7",
+    # ecalls that wait in the execute stage for older instructions (five-stage), then an exit
+    "ecalls": "addi x17, x0, 1\naddi x10, x0, 7\necall\nsw x10, 0(x5)\necall\naddi x17, x0, 93\naddi x10, x0, 3\necall\naddi x6, x0, 1",
     "mixed": "lui x5, 4\nsw x6, 0(x5)\ncsrrw x7, 0x001, x6\nlw x8, 0(x5)\nbeq x8, x6, 8\naddi x9, x0, 1\ncsrrci x10, 0x001, 0\nsrai x11, x8, 3",
 }
 
